@@ -11,18 +11,17 @@ EXPLANATION = (
     "Static decision of structural clauses of C14. (R1) every static / thread_local / scoped_thread_local item with interior "
     "mutability in the engine, std, shuttle, schedulers and tokio-time crates is enumerated from the type-checked program "
     "(tracing call-sites excluded by expansion tag) and each must be (a) overwritten on every path from Execution::run's "
-    "entry to the spawn of the main task, or cleared by ExecutionState::cleanup which is reached on every normally "
-    "returning path, (b) a scoped key bound for the duration of a run, or (c) a table entry with a reason; a new static "
+    "entry to the spawn of the main task (clearing in ExecutionState::cleanup alone does not count: a failing execution "
+    "unwinds past it), (b) a scoped key bound for the duration of a run, or (c) a table entry with a reason; a new static "
     "without a reset is reported by name. (R2) ExecutionState::new takes only (Config, scheduler), reads no ambient state "
     "and is called only by Execution::run. (R3) cleanup takes the task list, pops storage until empty and clears the "
     "per-thread maps; Once and lazy_static keep their state only in ExecutionState storage. (R4) a continuation is put "
     "back into the pool only when reusable, or after its un-run function has been taken out.")
 NOT_DECIDED = "behavioural equality of an execution with its stand-alone replay; state kept by user code or third-party crates"
-ASSUMPTIONS = ["user code's own statics are out of scope", "a failing run ends the Runner; isolation is claimed across passing/abandoned executions"]
+ASSUMPTIONS = ["user code's own statics are out of scope"]
 
 E = "shuttle_engine::runtime::execution::"
 RUN = E + "Execution::run"
-RUN_CLOSURE = RUN + "::{closure#0}"
 CLEANUP = E + "ExecutionState::cleanup"
 
 # (c) allow-listed state, one reason per line
@@ -73,7 +72,7 @@ def r1_inventory(ctx):
     if not ctx.floor("C14.R1", "EXECUTION_STATE.set call in Execution::run", len(S), 1):
         return
     # cleanup is reached on every normally returning path of the run closure
-    rc = ctx.body(RUN_CLOSURE, "C14.R1")
+    rc = ctx.closure(RUN, E + "Execution::run_to_completion", "C14.R1")
     rtc = [s for s, t in rc.calls() if E + "Execution::run_to_completion" in rc.callees_of_call(t, passed=False)]
     cleanup_ok = bool(rtc) and kinds.must_follow(prog, rc, rtc[0], {CLEANUP}) is None
     ctx.ob("C14.R1", "cleanup-reached", cleanup_ok,
@@ -93,8 +92,12 @@ def r1_inventory(ctx):
             ctx.ob("C14.R1", "state|" + k, True, "`%s` is allow-listed: %s" % (k, TABLE[k]), loc="%s:%s" % (it.get("file"), it.get("line")), nontrivial=False)
             continue
         ok, how = kinds.reset_on_entry(prog, rb, S[0], k, exclude={"shuttle_engine::runtime::failure::persist_failure"})
-        if not ok and k in cleanup_resets and cleanup_ok:
-            ok, how = True, "cleared in ExecutionState::cleanup"
+        # cleanup alone is not enough: a failing execution unwinds out of Execution::run without reaching it, and the next
+        # run on the same thread would start from the failed run's values (defect D8, fixed in /repo)
+        if ok and k in cleanup_resets and cleanup_ok:
+            how += "; also cleared in ExecutionState::cleanup"
+        elif not ok and k in cleanup_resets:
+            how = "only cleared in ExecutionState::cleanup, which a failing execution never reaches"
         ctx.ob("C14.R1", "state|" + k, ok,
                ("`%s` (%s) is reset per execution: %s" % (k, it["ty"].split("<", 1)[-1][:60], how)) if ok else
                ("`%s` of type %s survives from one execution to the next: it is neither overwritten on the run entry path nor cleared in cleanup (%s)" % (k, it["ty"], how)),
